@@ -56,6 +56,14 @@ type c03fPod struct {
 	Present bool `json:"present"`
 	Phase   int  `json:"phase"` // 0 Running 1 Pending 2 Succeeded 3 Failed
 	UID     int  `json:"uid"`   // 1 a, 2 b
+	// Report > 0: the pod object reports addresses in its status. A pod the record
+	// has bound reports the bound addresses; an unbound pod reports the (Report-1)-th
+	// idle Valid address set of the wanted interfaces - the take-over situation (record
+	// rebuilt from the cloud / first sync: the pod runs on an address the record has
+	// not linked to it).
+	Report int `json:"report,omitempty"`
+	// Vanish: entry sync2 deletes the pod object between its two passes.
+	Vanish bool `json:"vanish,omitempty"`
 }
 
 type c03fRT struct {
@@ -66,7 +74,7 @@ type c03fRT struct {
 }
 
 type c03fScenario struct {
-	Entry     string    `json:"entry"` // release | trim | gc | sync
+	Entry     string    `json:"entry"` // release | trim | gc | sync | sync2 (two sync passes, pods vanish in between)
 	V4        bool      `json:"v4"`
 	V6        bool      `json:"v6"`
 	ENIs      []c03fENI `json:"enis"`
@@ -89,7 +97,7 @@ func c03fPodID(pod int) string { return fmt.Sprintf("ns/p%d", pod) }
 
 func c03fGen(t *rapid.T) c03fScenario {
 	s := c03fScenario{
-		Entry:   rapid.SampledFrom([]string{"release", "release", "trim", "gc", "gc", "sync", "sync"}).Draw(t, "entry"),
+		Entry:   rapid.SampledFrom([]string{"release", "release", "trim", "gc", "gc", "sync", "sync", "sync2", "sync2"}).Draw(t, "entry"),
 		MaxPool: rapid.IntRange(0, 4).Draw(t, "maxPool"),
 		ToDel:   rapid.IntRange(1, 6).Draw(t, "toDel"),
 	}
@@ -109,6 +117,8 @@ func c03fGen(t *rapid.T) c03fScenario {
 			Present: rapid.IntRange(0, 9).Draw(t, "present") < 5,
 			Phase:   rapid.SampledFrom([]int{0, 0, 0, 1, 2, 3}).Draw(t, "phase"),
 			UID:     rapid.SampledFrom([]int{1, 1, 1, 2}).Draw(t, "poduid"),
+			Report:  rapid.SampledFrom([]int{0, 0, 1, 2, 3}).Draw(t, "report"),
+			Vanish:  rapid.IntRange(0, 9).Draw(t, "vanish") < 4,
 		})
 	}
 	// owners are dealt from a permutation so that a pod owns at most one binding
@@ -197,6 +207,8 @@ func (c03fRecorder) AnnotatedEventf(object runtime.Object, annotations map[strin
 }
 
 type c03fWorld struct {
+	takeover []string  // pods that report an address the record has not linked to them
+	idle  [][2][]string // per wanted interface: idle Valid v4 / v6 addresses (take-over candidates)
 	node  *networkv1beta1.Node
 	pods  map[string]c03cloud.PodView
 	rt    *networkv1beta1.NodeRuntime
@@ -225,6 +237,7 @@ func c03fBuild(s c03fScenario) *c03fWorld {
 		},
 		Status: networkv1beta1.NodeStatus{NetworkInterfaces: map[string]*networkv1beta1.NetworkInterface{}},
 	}
+	reported := map[int][]string{} // pod -> addresses the record has bound to it
 	for i, e := range s.ENIs {
 		id := fmt.Sprintf("eni-L%d", i)
 		ni := &networkv1beta1.NetworkInterface{
@@ -277,19 +290,35 @@ func c03fBuild(s c03fScenario) *c03fWorld {
 				ce.V4 = append(ce.V4, addr)
 			}
 		}
+		boundAddrs := map[int][]string{}
 		for bi := range e.Bound {
 			if s.V4 {
 				add(false, false, &e.Bound[bi])
+				boundAddrs[e.Bound[bi].Pod] = append(boundAddrs[e.Bound[bi].Pod], ce.V4[len(ce.V4)-1])
 			}
 			if s.V6 {
 				add(true, false, &e.Bound[bi])
+				boundAddrs[e.Bound[bi].Pod] = append(boundAddrs[e.Bound[bi].Pod], ce.V6[len(ce.V6)-1])
 			}
 		}
+		for k, v := range boundAddrs {
+			reported[k] = v
+		}
+		var cand [2][]string
 		for _, del := range e.Idle4 {
 			add(false, del, nil)
+			if !del && e.Status == 0 && s.V4 {
+				cand[0] = append(cand[0], ce.V4[len(ce.V4)-1])
+			}
 		}
 		for _, del := range e.Idle6 {
 			add(true, del, nil)
+			if !del && e.Status == 0 {
+				cand[1] = append(cand[1], ce.V6[len(ce.V6)-1])
+			}
+		}
+		if e.Status == 0 {
+			w.idle = append(w.idle, cand)
 		}
 		if len(ce.V4) > 0 {
 			ni.PrimaryIPAddress = ce.V4[0]
@@ -306,11 +335,34 @@ func c03fBuild(s c03fScenario) *c03fWorld {
 			continue
 		}
 		phase := []corev1.PodPhase{corev1.PodRunning, corev1.PodPending, corev1.PodSucceeded, corev1.PodFailed}[p.Phase]
-		objs = append(objs, &corev1.Pod{
+		obj := &corev1.Pod{
 			ObjectMeta: metav1.ObjectMeta{Namespace: "ns", Name: fmt.Sprintf("p%d", i), UID: k8stypes.UID(c03fUID(i, p.UID))},
 			Spec:       corev1.PodSpec{NodeName: c03fNode},
 			Status:     corev1.PodStatus{Phase: phase},
-		})
+		}
+		if p.Report > 0 {
+			ips := reported[i]
+			if ips == nil && len(w.idle) > 0 {
+				// take-over: the n-th idle address (pair) of one wanted interface, each at most once
+				e := (p.Report - 1) % len(w.idle)
+				for fam := 0; fam < 2; fam++ {
+					if l := w.idle[e][fam]; len(l) > 0 {
+						ips = append(ips, l[0])
+						w.idle[e][fam] = l[1:]
+					}
+				}
+				if len(ips) > 0 {
+					w.takeover = append(w.takeover, c03fPodID(i))
+				}
+			}
+			for _, ip := range ips {
+				obj.Status.PodIPs = append(obj.Status.PodIPs, corev1.PodIP{IP: ip})
+			}
+			if len(ips) > 0 {
+				obj.Status.PodIP = ips[0]
+			}
+		}
+		objs = append(objs, obj)
 		w.pods[c03fPodID(i)] = c03cloud.PodView{UID: c03fUID(i, p.UID), Exited: p.Phase >= 2}
 	}
 	if !s.NoRuntime {
